@@ -25,6 +25,7 @@ type SpecEnv struct {
 	what  string
 	bound []string
 	pol   int // +1: the formula being built will be assumed and this position is positive
+	shift map[string]Term // bound variable -> offset of the first array window it indexes
 }
 
 type specErr struct{ msg string }
@@ -202,7 +203,7 @@ func (env *SpecEnv) toSeq(v *Value) *SeqV {
 		}
 		if rec := env.st.content[v.C[0].S]; rec != nil {
 			if d, ok := litVal(Sub(v.C[1], rec.off)); ok && d.Sign() >= 0 {
-				if d.Sign() == 0 && v.C[2].S == rec.ln.S {
+				if d.Sign() == 0 && sameTerm(v.C[2], rec.ln) {
 					return rec.seq
 				}
 				at, dd := rec.seq.At, BigLit(d)
@@ -211,6 +212,13 @@ func (env *SpecEnv) toSeq(v *Value) *SeqV {
 				}
 				return &SeqV{Len: v.C[2], At: func(i Term) Term { return at(Add(i, dd)) }}
 			}
+		}
+		if os.Getenv("GVC_DEBUG") != "" {
+			var ks []string
+			for k := range env.st.content {
+				ks = append(ks, k)
+			}
+			fmt.Fprintf(os.Stderr, "toSeq row view ref=%s off=%s len=%s records=%v\n", v.C[0].S, v.C[1].S, v.C[2].S, ks)
 		}
 		key, _ := x.eng.heapKey("M", u.Elem(), 0)
 		row := x.rowOf(x.heapGet(env.st, key), v.C[0])
@@ -594,10 +602,30 @@ func (env *SpecEnv) sel(n *ESel) *Value {
 	return cur
 }
 
+func (env *SpecEnv) noteShift(sq *SeqV, i Term) {
+	if env.shift == nil || !sq.HasRow || sq.Off.S == "0" {
+		return
+	}
+	for _, bn := range env.bound {
+		if bn == i.S {
+			if _, ok := env.shift[bn]; !ok {
+				env.shift[bn] = sq.Off
+			}
+		}
+	}
+}
+
 func (env *SpecEnv) index(xv *Value, i Term) *Value {
 	x := env.x
 	if xv.Seq != nil || isString(xv.T) {
-		return mkInt(env.toSeq(xv).At(i))
+		sq := env.toSeq(xv)
+		env.noteShift(sq, i)
+		return mkInt(sq.At(i))
+	}
+	if xv.T != nil && env.isSeqLike(xv) {
+		if sq := env.toSeq(xv); sq.HasRow {
+			env.noteShift(sq, i)
+		}
 	}
 	if xv.T == nil {
 		sfail("index of %s", describe(xv))
@@ -780,7 +808,25 @@ func (env *SpecEnv) quantExpr(n *EQuant) *Value {
 	for _, bv := range bvs {
 		sub.bound = append(sub.bound, bv.S)
 	}
+	// first pass: does a bound variable index an array window at a non-zero offset?
+	sub.shift = map[string]Term{}
 	body := sub.asBool(sub.eval(n.Body))
+	if len(sub.shift) > 0 {
+		// re-quantify over the index into the underlying array (j = off + k), so that the
+		// trigger is a plain (select row j)
+		for name, v := range vars {
+			if len(v.C) != 1 {
+				continue
+			}
+			if off, ok := sub.shift[v.C[0].S]; ok {
+				vars[name] = mkInt(Sub(v.C[0], off))
+			}
+		}
+		sub2 := env.with(vars)
+		sub2.quant = env.quant + 1
+		sub2.bound = sub.bound
+		body = sub2.asBool(sub2.eval(n.Body))
+	}
 	if n.Forall {
 		return mkBool(Forall(bvs, Implies(And(guards...), body)))
 	}
@@ -1005,6 +1051,9 @@ func (env *SpecEnv) applySpec(sf *SpecFunc, args []*Value) *Value {
 			targs = append(targs, v.C[0])
 		}
 	}
+	if env.quant == 0 {
+		x.extInstances(sf, targs)
+	}
 	switch sf.Result {
 	case "seq":
 		arr := App(SArr, sf.Name+"$arr", targs...)
@@ -1019,6 +1068,37 @@ func (env *SpecEnv) applySpec(sf *SpecFunc, args []*Value) *Value {
 		return mkBool(App(SBool, sf.Name, targs...))
 	default:
 		return mkInt(App(SInt, sf.Name, targs...))
+	}
+}
+
+// extInstances: two applications of the same spec function whose sequence arguments are different
+// array terms get an instance of array extensionality for each such pair (A = B or they differ
+// at a witness index), so that congruence can merge the applications when contents agree.
+func (x *Exec) extInstances(sf *SpecFunc, targs []Term) {
+	prev := x.ufApps[sf.Name]
+	for _, old := range prev {
+		if len(old) != len(targs) {
+			continue
+		}
+		for i := range targs {
+			a, b := old[i], targs[i]
+			if a.Sort != SArr || a.S == b.S {
+				continue
+			}
+			key := "ext|" + a.S + "|" + b.S
+			if a.S > b.S {
+				key = "ext|" + b.S + "|" + a.S
+			}
+			if _, done := x.ctx.named[key]; done {
+				continue
+			}
+			x.ctx.named[key] = TTrue
+			k := x.ctx.Fresh("extk", SInt)
+			x.ctx.Assume(Or(Eq(a, b), Neq(Select(a, k), Select(b, k))))
+		}
+	}
+	if len(prev) < 12 {
+		x.ufApps[sf.Name] = append(prev, targs)
 	}
 }
 
